@@ -9,7 +9,13 @@ only = sys.argv[2:]
 props = {json.loads(l)['id']: json.loads(l) for l in open('/verif/properties.jsonl')}
 os.makedirs('/tmp/seedprompts', exist_ok=True)
 extra = ""
-if suffix:
+if suffix >= 'c':
+    extra = ("\nBefore you edit anything, survey the code and write down THREE candidate changes in three DIFFERENT source "
+             "files (or clearly different mechanisms) that would each break the property; then implement the one that a "
+             "careful reviewer would find hardest to notice and that needs the most specific circumstances (a combination "
+             "of two features, a particular order of calls or completions, an unusual but legal value such as empty / nil / "
+             "zero / duplicate, a second use of the same object). Prefer mechanisms other than the obvious central loop.\n")
+elif suffix:
     extra = ("\nThere are usually several code paths that realise a property like this one (invoke vs stream vs collect vs "
              "transform execution, Pregel vs DAG vs workflow scheduling, nested graphs, chain / parallel / branch wrappers, "
              "the tools node, the agents under flow/, helpers in schema/ and internal/). Do NOT take the first, most "
